@@ -1,5 +1,5 @@
 (* C02 at the PSDImage level - lemmas (Tree/BuildProofs.v is used read-only). *)
-From PsdV Require Import Base.Prelude Psd.Codec Psd.Model Psd.Proofs Psd.Corr Psd.Leaf Psd.Resave Psd.ResaveProofs Psd.ResaveApi.
+From PsdV Require Import Base.Prelude Psd.Codec Psd.Model Psd.Proofs Psd.Leaf Psd.Resave Psd.ResaveProofs Psd.ResaveApi.
 From PsdV Require Tree.Forest Tree.Build Tree.BuildProofs.
 From Coq Require Import ZArith List Bool Lia.
 Import ListNotations.
